@@ -21,7 +21,9 @@ Inductive case :=
      flag (the flag must be honoured whatever the argument count) *)
 | CFindPlain (s p : bytes) (oinit : option Z) (nextra : Z) (o : obsv (list lval))
   (* inputs too large to spell out: kind 0 = string.find(("a"):rep(n), "a*");
-     kind 1 = string.find("abc", ("("):rep(n)) *)
+     kind 1 = string.find("abc", ("("):rep(n));
+     kind 2 = string.gsub("a", "a", ("%%"):rep(n)) and kind 3 = string.gsub("ab", "b", ("%0%%"):rep(n)),
+     observed as [length of the result; count; number of '%' bytes in the result] *)
 | CBig (kind n : Z) (o : obsv (list lval))
 | CGmatch (s p : bytes) (o : obsv (list (list lval)))
 | CGsub (s p : bytes) (r : repl) (olimit : option Z) (o : obsv gsub_out)
@@ -92,7 +94,9 @@ Definition check_impl (c : case) : bool :=
          capture (n <= 32) or too many captures *)
       if kind =? 0 then
         agree vals_eqb (if n + 3 >? maxRecursionLevel then Err else Ok [VNum 1; VNum n]) o
-      else agree vals_eqb Err o
+      else if kind =? 1 then agree vals_eqb Err o
+      else if kind =? 2 then agree vals_eqb (Ok [VNum n; VNum 1; VNum n]) o         (* n times '%' *)
+      else agree vals_eqb (Ok [VNum (1 + 2 * n); VNum 1; VNum n]) o                 (* "a" ++ n times "b%" *)
   | CGmatch s p o => agree tuples_eqb (strGmatch s p) o
   | CGsub s p r ol o => agree gsub_eqb (strGsub s p r ol) o
   | CPmFind p s off lim o => agree md_eqb (of_fres (goFind p s off lim) (fun ms => Ok (map md_view ms))) o
@@ -217,7 +221,9 @@ Definition check_spec (c : case) : bool :=
                           | Some (a, b) => [VNum a; VNum b] | None => [VNil] end)) o
   | CBig kind n o =>
       if kind =? 0 then agree vals_eqb (Ok [VNum 1; VNum n]) o      (* lstrlib: max_expand is a loop *)
-      else match o with OErr => true | OOk v => vals_eqb [VNil] v | OPanic => false end
+      else if kind =? 1 then match o with OErr => true | OOk v => vals_eqb [VNil] v | OPanic => false end
+      else if kind =? 2 then agree vals_eqb (Ok [VNum n; VNum 1; VNum n]) o         (* add_s: %% -> % *)
+      else agree vals_eqb (Ok [VNum (1 + 2 * n); VNum 1; VNum n]) o
   | CGmatch s p o => spec_ok tuples_eqb (ref_wf p false) (ref_gmatch s p) [] o
   | CGsub s p r ol o => spec_ok gsub_eqb (ref_wf p true) (ref_gsub s p r ol) (s, 0, []) o
   | CPmFind p s off lim o => spec_ok md_eqb (ref_wf p true) (ref_pmfind p s off lim) [] o
